@@ -10,6 +10,8 @@ CONSTANTS
   MaxClock = 2
   Faults = 1
   Abandons = TRUE
+  CancelStyles <- StylesScope
+  WithPoolClose = FALSE
   Deviations <- Empty
 INVARIANT TypeOK
 INVARIANT ConnLimit
